@@ -15,7 +15,7 @@ from treecodec import tree
 import impl
 
 ID = "C20"
-THEOREMS = ["toks_injective", "dump_injective_partial", "hash_separates", "hash_congr", "hash_total"]
+THEOREMS = ["dump_injective", "hash_separates_selfDelimiting", "renderInj_selfDelimiting", "lex_render", "tokOK_all", "scanStr_append", "toks_injective", "dump_injective_partial", "hash_separates", "hash_congr", "hash_total"]
 RULE = (
     "seeded queries (gen/expr.py) decorated with string/bytes/float/complex constants over ASCII, Latin-1, "
     "BMP and astral characters, quotes and brackets; each is hashed as parsed, re-parsed from re-formatted "
@@ -25,16 +25,20 @@ RULE = (
     "non-trivial = query with at least 5 nodes; distinct = distinct ast.dump"
 )
 EXPLANATION = (
-    "Theorems: toks_injective (token stream of ast.dump determines the field tree, by prefix-freeness "
-    "induction), dump_injective_partial and hash_separates (equal hash => equal tree or an explicit MD5 "
-    "collision; the character-level rendering step is the explicit hypothesis RenderInj), hash_congr, "
-    "hash_total. Correspondence: Lean dump(field tree) == ast.dump and md5(utf-8 of the Lean dump) == "
-    "calc_ast_hash. Oracles: equal structures built differently / in other processes hash equal; single "
-    "edits hash different; no exception for any text."
+    "Theorems: dump_injective and hash_separates_selfDelimiting (two self-delimiting field trees with the same dump are the "
+    "same tree; equal hash => equal tree or an explicit MD5 collision) - no hypothesis about rendering is left: "
+    "renderInj_selfDelimiting is proved by a lexer that recovers the token stream from the text (lex_render: it inverts the "
+    "rendering of every well-formed token stream; tokOK_all: the token stream of a tree is well formed; scanStr_append: string "
+    "literals with backslash escapes are self-terminating), on top of toks_injective (the token stream determines the field "
+    "tree, by prefix-freeness induction). Self-delimiting = every listed field has a value, class and field names are atoms "
+    "(non-empty, no separator / bracket / quote / space), constant reprs are atoms, string literals in quotes, prefixed "
+    "string literals (b'..') or parenthesised atoms ((1+2j)); that CPython's names and reprs have this shape is evaluated on "
+    "the tree of every generated AST (driver op selfDelim; a tree outside the shape is reported). hash_congr, hash_total. "
+    "Correspondence: Lean dump(field tree) == ast.dump and md5(utf-8 of the Lean dump) == calc_ast_hash. Oracles: equal "
+    "structures built differently / in other processes hash equal; single edits hash different; no exception for any text."
 )
 ASSUMPTIONS = [
-    "RenderInj: Python identifiers and constant reprs are self-delimiting inside a dump (hypothesis of "
-    "dump_injective_partial; exercised by the distinct-dump/distinct-tree check on every run)",
+    "CPython's class / field names and constant reprs have the self-delimiting shape (evaluated on every generated tree)",
     "MD5 collision-freeness is NOT assumed: it is a disjunct of hash_separates",
 ]
 TRUSTED = ["hashlib.md5 (a parameter H of the model)", "harness/treecodec.py (validated by dump == ast.dump)"]
@@ -234,6 +238,15 @@ def check_cases(ctx, srcs, do_subproc=True):
         reqs.append(("dump", [tree(a)]))
         keep.append((src, d, h))
     res = ctx.driver.batch(reqs)
+    # the one thing the injectivity theorem leaves to trust - CPython's class / field names are atoms and its constant
+    # reprs are atoms, (prefixed) string literals or parenthesised atoms - is evaluated on the tree of every generated AST
+    shape = ctx.driver.batch([("selfDelim", r[1]) for r in reqs])
+    for (src, d, h), sh in zip(keep, shape):
+        if tuple(sh) == ("ok", "true"):
+            ctx.dist["self-delimiting (hypothesis of dump_injective holds)"] += 1
+        else:
+            ctx.dist["NOT self-delimiting (outside dump_injective)"] += 1
+            ctx.disagree("selfDelimiting", {"src": src}, "every name an atom, every constant repr of the assumed shape", (sh[0], sh[1][:100]))
     for (src, d, h), (st, payload) in zip(keep, res):
         if st != "ok":
             ctx.disagree("dump", {"src": src}, d, payload)
